@@ -59,10 +59,12 @@ impl<C: Clock> Clock for OverlayClock<C> {
         Ok(now_local)
     }
     fn step_clock(&mut self, offset: Duration) -> Result<Time, Self::Error> {
-        self.last_sync = self.roclock.now();
-        let multiplier = 1_000_000f64 + self.freq_scale_ppm_diff;
-        let reciprocal = 1_000_000f64 / multiplier;
-        self.shift += offset * reciprocal;
+        // re-anchor at the current reading (keeping the frequency correction accrued
+        // so far), then move the reading by exactly `offset`
+        let now_roclock = self.roclock.now();
+        let now_local = self.time_from_underlying(now_roclock);
+        self.shift = (now_local - now_roclock) + offset;
+        self.last_sync = now_roclock;
         Ok(self.time_from_underlying(self.last_sync))
     }
     fn set_properties(
